@@ -271,6 +271,7 @@ func run(seed int64, n int, dir string, _ []string) {
 			}
 			o.Count("pool_with_family")
 		}
+		longKey := false
 		if g.Intn(6) == 0 {
 			// one very long key text (beyond the size of any pooled key buffer) and a differently spelled twin of it:
 			// keys computed before and after it must still meet in the same buckets
@@ -279,6 +280,7 @@ func run(seed int64, n int, dir string, _ []string) {
 			if nrows > 40 {
 				nrows = 40
 			}
+			longKey = true
 			o.Count("pool_with_long_key")
 		}
 		rows := make([][]value.Primary, nrows)
@@ -437,6 +439,7 @@ func run(seed int64, n int, dir string, _ []string) {
 				"%Y%m%d":         {{"20120203", " 20120203"}, {"20120204"}, {"20111225", "20111225"}},
 				"%e.%c.%Y %H:%i": {{"3.2.2012 09:05", "03.02.2012 09:05"}, {"3.2.2012 9:06"}, {"25.12.2011 00:00", "25.12.2011 0:00"}},
 			}[layout]
+			flags.DatetimeFormat = nil // exactly this one format (SetFlag only ever ADDS a format to the session's list)
 			_ = pr.P.Tx.SetFlag(option.DatetimeFormatFlag, layout)
 			setStrict(false)
 			type fr struct {
@@ -493,7 +496,9 @@ func run(seed int64, n int, dir string, _ []string) {
 			}
 			o.Count("datetime_format_bucket_checks")
 			pr.DisposeTable("dtt")
-			_ = pr.P.Tx.SetFlag(option.DatetimeFormatFlag, "")
+			// SetFlag(DATETIME_FORMAT, "") adds nothing and removes nothing: the list is emptied directly, so that the later
+			// tables run without custom formats, as their cell profiles (hc.DatetimeFormats = nil) assume
+			flags.DatetimeFormat = nil
 			setStrict(strict)
 		}
 		// an outer aggregate WITHOUT GROUP BY over a grouped derived table whose select list is exactly its source's
@@ -601,6 +606,10 @@ func run(seed int64, n int, dir string, _ []string) {
 					o.NonTrivial(fmt.Sprintf("setop:%s:%s:%d", op, all, v.RecordLen()))
 				}
 			}
+			// the same three kinds of bucketing with select lists of every shape (sellist.go)
+			if t < 200 { // thorough tier: the first 200 tables of a stream (its op lines are long)
+				runSelLists(g, o, pr, st, strict, cols, nrows, longKey, cpu)
+			}
 			pr.DisposeTable("u")
 		}
 		pr.DisposeTable("t")
@@ -609,6 +618,9 @@ func run(seed int64, n int, dir string, _ []string) {
 
 	// ---------- stream 3: the aggregate functions themselves (agg.go) ----------
 	runAgg(g, o, pr, n)
+
+	// ---------- stream 4: GROUP BY → grouped records → the aggregate evaluation (gagg.go) ----------
+	runGagg(g, o, pr, n)
 }
 
 // idsOfKeys maps the implementation's output rows back to source row ids: the k-th output row must be
